@@ -22,6 +22,24 @@ type knownFinding struct {
 	Text       string
 }
 
+// matches: a finding names an obligation exactly, or by its clause label without the trailing site ordinals
+// ("f#post.hist.first" covers "f#post.hist.first.19"), so that a finding does not depend on how many return paths
+// the function has.
+func (kf knownFinding) matches(name string) bool {
+	if kf.Obligation == name {
+		return true
+	}
+	if !strings.HasPrefix(name, kf.Obligation+".") {
+		return false
+	}
+	for _, c := range name[len(kf.Obligation)+1:] {
+		if !(c >= '0' && c <= '9' || c == '.') {
+			return false
+		}
+	}
+	return true
+}
+
 func loadKnownFindings() []knownFinding {
 	data, err := os.ReadFile(filepath.Join(verifDir, "known_findings.txt"))
 	if err != nil {
@@ -267,15 +285,22 @@ func cmdCheck(args []string) int {
 	}
 	tGen := time.Since(t0).Seconds() - tLoad
 	// discharge
-	outDir := filepath.Join(verifDir, "out", *prop)
+	outDir := filepath.Join(scratchDir(), "out", *prop)
 	os.RemoveAll(outDir)
 	os.MkdirAll(outDir, 0o755)
 	if *only == "" {
-		os.RemoveAll(filepath.Join(verifDir, "replay", *prop)) // replay material is per run
+		os.RemoveAll(filepath.Join(scratchDir(), "replay", *prop)) // replay material is per run
+	}
+	known := loadKnownFindings()
+	for _, o := range obls {
+		for _, kf := range known {
+			if kf.Status == "open" && kf.Property == *prop && kf.matches(o.Name) {
+				o.KnownOpen = true // recorded defect: one short attempt is enough (it is expected not to discharge)
+			}
+		}
 	}
 	dischargeAll(obls, solveOpts{timeoutS: to, seed: seed, outDir: outDir, all: tier == "thorough"}, 6)
 	// verdicts
-	known := loadKnownFindings()
 	lock := loadLock()
 	violations, knownHit, toolErrors := 0, []string{}, 0
 	var lines []string
@@ -285,7 +310,7 @@ func cmdCheck(args []string) int {
 	solverSecs := 0.0
 	report := func(name, why string, o *Obligation) {
 		for _, kf := range known {
-			if kf.Status == "open" && kf.Property == *prop && kf.Obligation == name {
+			if kf.Status == "open" && kf.Property == *prop && kf.matches(name) {
 				lines = append(lines, fmt.Sprintf("KNOWN-FINDING: property=%s obligation=%s %s", *prop, name, kf.Text))
 				knownHit = append(knownHit, name)
 				return
@@ -413,7 +438,7 @@ func cmdCheck(args []string) int {
 			"solver_timeout_s":         to,
 			"explanation":              "every obligation generated from the current /repo source for the contracts tagged with this property was sent to z3, z3-new and cvc5; 'discharged' counts those answered unsat",
 		}}
-	if !*noEvidence && *only == "" {
+	if !*noEvidence && *only == "" && os.Getenv("VERIF_SCRATCH") == "" {
 		os.MkdirAll(filepath.Join(verifDir, "evidence"), 0o755)
 		data, _ := json.MarshalIndent(ev, "", " ")
 		os.WriteFile(filepath.Join(verifDir, "evidence", *prop+".json"), data, 0o644)
@@ -523,9 +548,18 @@ func pinLock(prop string, obls []*Obligation) {
 	os.WriteFile(filepath.Join(verifDir, "obligations.lock"), []byte(b.String()), 0o644)
 }
 
+// scratchDir is where per-run material (SMT files, replay directories) goes: /verif, unless VERIF_SCRATCH names
+// another directory (used to check scratch worktrees in parallel; such runs never write evidence).
+func scratchDir() string {
+	if d := os.Getenv("VERIF_SCRATCH"); d != "" {
+		return d
+	}
+	return verifDir
+}
+
 // writeReplay stores everything needed to look at a failed obligation.
 func writeReplay(prop, name, why string, o *Obligation, opts solveOpts) string {
-	dir := filepath.Join(verifDir, "replay", prop, fileSafe(name))
+	dir := filepath.Join(scratchDir(), "replay", prop, fileSafe(name))
 	os.RemoveAll(dir)
 	os.MkdirAll(dir, 0o755)
 	var b strings.Builder
